@@ -51,6 +51,9 @@ def run(c):
         "values are strings, bytes, tuples, lists and dicts, nested, plus None, booleans and ints as atoms (zero-like values as dict "
         "values, dict keys and sequence elements; no floats, so no 0 == 0.0); dict keys are hashable (strings, bytes, tuples of such), "
         "for which Starlark equality is structural equality",
+        "floats are outside the Lean model's universe: the diffEnv pairs that differ only by 1 / 1.0 or 0.0 / -0.0 are judged on the "
+        "implementation only (harness_stats env.judge_only); sharing (one shared list vs two equal lists) and dict insertion order are "
+        "covered by the model through the `encodings equal` fact, which the harness computes from the real pickle text of both environments",
         "equality is starlark.EqualDepth; Diff uses the depth limit starlark.CompareLimit (10): deeper values are refused by the "
         "comparison itself and are outside the property (streams diff.depth / diff.equal compare the refusal with the model)",
         "C16_faithful is stated for element comparisons that do not fail (elements no deeper than the limit 1000 of snake)",
@@ -67,7 +70,8 @@ def run(c):
         "becoming None, ...); depth limits 0..5 against heights 1..5; the restart path "
         "of compose with routeSize 1..30; diffEnv on pairs of environment dicts over functionEnvKeys. Judge on the implementation: "
         "empty iff starlark.Equal, Old()/New() are the given values, both sequences are reconstructed from the edits (recursively "
-        "through replaces), mapping edits = keys added + removed + changed, reason = the differing parts. A case is non-trivial "
+        "through replaces), mapping edits = keys added + removed + changed, up to date iff the real encodings are equal; (false, \"environment changed\", no diff) iff the encodings differ and the "
+        "environments are ==; otherwise reason = the differing parts. A case is non-trivial "
         "when the diff is not nil; distinct by driver input line.")
     c.prove()
     exe = harness(c)
